@@ -1,7 +1,7 @@
 (** C17 — property theorems only.  Each is closed by [exact] of a lemma in Proofs.v and followed by
     [Print Assumptions]. *)
-From V Require Import Base.Util Gql.Ast Writer.Wop Ts.TsType Ts.TsDen C17.Sites C17.Model C17.Spec C17.Proofs C17.Full C17.Branches.
-From V Require C10.Model C10.Spec C01.Model C17.Denot.
+From V Require Import Base.Util Gql.Ast Writer.Wop Ts.TsType Ts.TsDen C17.Sites C17.Model C17.Spec C17.Proofs C17.PluginProofs C17.Table C17.Full C17.Branches.
+From V Require C10.Model C10.Spec C01.Model C05.Model C03.Model C17.Denot C17.CheckPerm C17.OpPerm.
 From V Require Gen.C17_sites_gen.
 From Coq Require Import Permutation Sorting.Sorted.
 
@@ -45,7 +45,7 @@ Print Assumptions C17_local_names_oracle_irrelevant.
 Theorem C17_iter_types_insertion_order : forall D (items : list (str * D)),
   map fst (iter_types (build items)) = dedup [] (keys items)
   /\ (NoDup (keys items) -> iter_types (build items) = items).
-Proof. intros D items. split; [apply iter_types_names_build|apply iter_types_build_nodup]. Qed.
+Proof. intros D. exact (@iter_types_insertion_order D). Qed.
 Print Assumptions C17_iter_types_insertion_order.
 
 Theorem C17_map_str_oracle_irrelevant : forall D D' (pi pi' : oracle) (f : str -> str) (g : D -> D') (sc : schema D),
@@ -201,3 +201,106 @@ Theorem C17_branching_hashset_refuted :
     /\ exists l, branching_hashset pi 5 ex_schema [] ex_sels (s "Query") = C01.Model.Ok l /\ List.length l = 4%nat.
 Proof. exact branching_hashset_refuted. Qed.
 Print Assumptions C17_branching_hashset_refuted.
+
+(* ------------------------------------------------------------------------------------------- *)
+(** * third pass: every remaining raw-iteration site has a theorem about its modelled consumer *)
+
+(** "sorted afterwards": sorting map entries by key yields the same list for every iteration order *)
+Theorem C17_sort_by_key_order_irrelevant : forall V (l l' : hmap V),
+  Permutation l l' -> NoDup (keys l) -> sort_leb key_leb l = sort_leb key_leb l'.
+Proof. intros V. exact (@sort_by_key_order_irrelevant V). Qed.
+Print Assumptions C17_sort_by_key_order_irrelevant.
+
+(** graphql-scalars plugin: the schema text it contributes does not depend on the iteration order of
+    `type_extensions` (load_schema_extensions) nor of its own `scalar_extensions` (schema_addition) *)
+Theorem C17_plugin_schema_addition_oracle_irrelevant : forall (p1 p2 p1' p2' : oracle) (exts : hmap xext),
+  is_oracle p1 -> is_oracle p2 -> is_oracle p1' -> is_oracle p2' -> NoDup (keys exts) ->
+  plugin_schema_addition p1 p2 exts = plugin_schema_addition p1' p2' exts.
+Proof. exact plugin_schema_addition_oracle_irrelevant. Qed.
+Print Assumptions C17_plugin_schema_addition_oracle_irrelevant.
+
+Theorem C17_load_schema_extensions_lookup : forall (pi : oracle) (exts : hmap xext) k,
+  is_oracle pi -> NoDup (keys exts) ->
+  hm_get (load_schema_extensions pi [] exts) k =
+  match hm_get exts k with Some e => scalar_extension_of e | None => None end.
+Proof. exact load_schema_extensions_lookup. Qed.
+Print Assumptions C17_load_schema_extensions_lookup.
+
+(** loader: the files asked for are the not-yet-loaded import targets, each once, for every iteration order of
+    `loaded_files` — as a set; the ORDER of the answer does follow the hash order (refuted as a list) *)
+Theorem C17_get_required_files_spec : forall (pi : oracle) (loaded : hmap (list str)) x,
+  is_oracle pi ->
+  In x (get_required_files pi loaded) <->
+  (exists from imports, In (from, imports) loaded /\ In x imports) /\ hm_mem loaded x = false.
+Proof. exact get_required_files_spec. Qed.
+Print Assumptions C17_get_required_files_spec.
+
+Theorem C17_get_required_files_oracle_irrelevant : forall (pi pi' : oracle) (loaded : hmap (list str)),
+  is_oracle pi -> is_oracle pi' ->
+  Permutation (get_required_files pi loaded) (get_required_files pi' loaded)
+  /\ NoDup (get_required_files pi loaded).
+Proof. exact get_required_files_oracle_irrelevant_nodup. Qed.
+Print Assumptions C17_get_required_files_oracle_irrelevant.
+
+Theorem C17_get_required_files_order_refuted :
+  exists (loaded : hmap (list str)) (pi pi' : oracle), is_oracle pi /\ is_oracle pi' /\
+    get_required_files pi loaded <> get_required_files pi' loaded.
+Proof. exact get_required_files_order_refuted. Qed.
+Print Assumptions C17_get_required_files_order_refuted.
+
+(** verdict(pi(P)) = verdict(P) for check_type_system_document (C05's model [check_doc], read-only): a permuted
+    resolved document with unique type names and unique directive names gets the same diagnostics (messages,
+    positions, notes) up to their order — in particular the same pass/fail verdict *)
+Theorem C17_check_verdict_permutation : forall doc doc',
+  Permutation doc doc' ->
+  NoDup (map C05.Model.tname (C17.CheckPerm.tdefs doc)) -> NoDup (map C05.Model.dname (C17.CheckPerm.ddefs doc)) ->
+  Permutation (C05.Model.check_doc doc) (C05.Model.check_doc doc')
+  /\ (C05.Model.check_doc doc = [] <-> C05.Model.check_doc doc' = []).
+Proof. exact C17.CheckPerm.check_verdict_permutation. Qed.
+Print Assumptions C17_check_verdict_permutation.
+
+(** the guard on directive names is necessary, and nitrogql does not enforce it: known finding
+    `duplicate-directive-definition` *)
+Theorem C17_check_verdict_permutation_refuted :
+  exists doc doc', Permutation doc doc' /\ NoDup (map C05.Model.tname (C17.CheckPerm.tdefs doc))
+                   /\ C05.Model.check_doc doc = [] /\ C05.Model.check_doc doc' <> [].
+Proof. exact C17.CheckPerm.check_doc_permutation_refuted. Qed.
+Print Assumptions C17_check_verdict_permutation_refuted.
+
+(** what [holds] checks on the implementation's resolver / skeleton outputs, proved of the model *)
+Theorem C17_resolve_no_extension_left : forall its out,
+  resolve_schema_extensions its = Ok out -> Forall (fun d => d_ext d = false) (idefs out).
+Proof. exact resolve_no_extension_left. Qed.
+Print Assumptions C17_resolve_no_extension_left.
+
+Theorem C17_skeleton_shape : forall (pi : oracle) (o : hmap scfg) (doc : list item) a,
+  print_skeleton pi o doc = Ok a ->
+  Forall (fun d => hm_get (ctx_local_names pi o doc) (dc_schema d) = Some (dc_local d)) a
+  /\ map dc_schema (filter (fun d => N.eqb (dc_section d) 4) a) = map d_name (type_defs doc)
+  /\ Forall (fun d => dc_local d = dc_schema d \/ dc_local d = tmp_prefix ++ dc_schema d) a.
+Proof. exact print_skeleton_shape. Qed.
+Print Assumptions C17_skeleton_shape.
+
+(** the full statement of verdict-permutation for the schema check, its refutation on the current code (a
+    directive defined twice is accepted), and the theorem under the computable guard [unique_names] *)
+Theorem C17_check_verdict_permutation_partial : forall doc doc',
+  C17.CheckPerm.unique_names doc = true -> Permutation doc doc' ->
+  Permutation (C05.Model.check_doc doc) (C05.Model.check_doc doc')
+  /\ (C05.Model.check_doc doc = [] <-> C05.Model.check_doc doc' = []).
+Proof. exact C17.CheckPerm.check_verdict_permutation_partial. Qed.
+Print Assumptions C17_check_verdict_permutation_partial.
+
+Theorem C17_check_verdict_permutation_full_refuted : ~ C17.CheckPerm.check_verdict_permutation_full.
+Proof. exact C17.CheckPerm.check_verdict_permutation_full_refuted. Qed.
+Print Assumptions C17_check_verdict_permutation_full_refuted.
+
+(** verdict(pi(P)) = verdict(P) for check_operation_document (C03's model, read-only): permuting the definitions
+    of a resolved schema (unique type names, unique directive names, at most one schema definition) leaves the
+    diagnostics of every operation document unchanged — the same list, in the same order *)
+Theorem C17_operation_check_schema_permutation : forall S S',
+  Permutation S S' ->
+  NoDup (map C03.Model.tname (C17.OpPerm.tdefs S)) -> NoDup (map C17.OpPerm.dname (C17.OpPerm.ddefs S)) ->
+  (List.length (C17.OpPerm.sdefs S) <= 1)%nat ->
+  forall D, C03.Model.check_operation_document S D = C03.Model.check_operation_document S' D.
+Proof. exact C17.OpPerm.check_operation_document_schema_permutation. Qed.
+Print Assumptions C17_operation_check_schema_permutation.
